@@ -57,7 +57,11 @@ RULE_ADDED = (
               'Round 17: a certifier, re-signed by its own certifier, embedding another key wit'
               'h the same x as the one its children were signed with. '
               ' '
-              'Round 18: tweaks whose derived scalar begins with a zero byte (ground). ')
+              'Round 18: tweaks whose derived scalar begins with a zero byte (ground). '
+              ' '
+              'Round 19: an element of a valid path replaced (add_element) by one naming anothe'
+              'r certifier: judged like a fresh object built from the same elements, and as bef'
+              'ore once put back. ')
 RULE = RULE + " " + RULE_ADDED.strip()
 ASSUMPTIONS = [
     "oracle: pv/oracle/certv1.py (own secp256k1 arithmetic, ECDSA by cryptography/OpenSSL); "
@@ -345,6 +349,28 @@ def run_code(doc, root_pub, tmpdir):
             cert.add_element(HSMCertificateElement(dict(victim)))
             if norm(cert.validate_and_get_values(root)) != norm(first):
                 REVALIDATION.append("not-valid-again-after-the-element-was-put-back")
+            # an element of the path replaced by one that names ANOTHER certifier (one further
+            # up, or the root): the object is judged as it is now - like an object freshly
+            # built from the same elements - and as it was once the element is put back
+            for k in sorted({0, len(path) // 2}):
+                ups = [n for n in path[k + 2:] + ["root"]] if k + 1 < len(path) else []
+                if not ups:
+                    continue
+                el_k = [e for e in doc["elements"] if e["name"] == path[k]][0]
+                doc2 = copy.deepcopy(doc)
+                moved = [e for e in doc2["elements"] if e["name"] == path[k]][0]
+                moved["signed_by"] = ups[0]
+                cert.add_element(HSMCertificateElement(dict(moved)))
+                got2 = norm(cert.validate_and_get_values(root))
+                fresh2 = norm(HSMCertificate(doc2).validate_and_get_values(root))
+                MOVED[0] += 1
+                if got2 != fresh2:
+                    REVALIDATION.append("judged-otherwise-than-a-fresh-object-after-an-"
+                                        "element-was-given-another-certifier")
+                cert.add_element(HSMCertificateElement(dict(el_k)))
+                if norm(cert.validate_and_get_values(root)) != norm(first):
+                    REVALIDATION.append("not-valid-again-after-the-element-got-its-"
+                                        "certifier-back")
         # certificate objects built from the document itself (a dict, as a program that
         # holds one would), twice over from the very same dict: the verdicts are those of
         # the file, and the dict is what it was
@@ -365,6 +391,7 @@ def run_code(doc, root_pub, tmpdir):
 
 
 REVALIDATION = []
+MOVED = [0]
 
 
 def compare(acc, doc, root_pub, tmpdir, label, case):
@@ -376,6 +403,8 @@ def compare(acc, doc, root_pub, tmpdir, label, case):
                       {"label": label, "exc": repr(e)[:300]}, case)
         return None
     acc.count("revalidations_on_same_object")
+    acc.count("elements_given_another_certifier_inside_an_object", MOVED[0])
+    MOVED[0] = 0
     for prob in REVALIDATION:
         acc.violation("verdict-depends-on-earlier-validation:%s" % prob, {"label": label}, case)
     want, soft = o.verify(doc, root_pub)
